@@ -225,10 +225,30 @@ func appendSnapshotFlavors(b []byte, s *slip.Scope) []byte {
 			fa = append(fa, f)
 		}
 	}
+	// A flavor must be defined after the flavors it inherits from. That is
+	// not an ordering sort.Slice can work with so place them one by one.
 	sort.Slice(fa, func(i, j int) bool {
-		return fa[j].Inherits(fa[i])
+		return fa[i].Name() < fa[j].Name()
 	})
+	ordered := make([]*flavors.Flavor, 0, len(fa))
+	placed := map[*flavors.Flavor]bool{}
+	var place func(f *flavors.Flavor)
+	place = func(f *flavors.Flavor) {
+		if placed[f] {
+			return
+		}
+		placed[f] = true
+		for _, parent := range fa {
+			if parent != f && f.Inherits(parent) {
+				place(parent)
+			}
+		}
+		ordered = append(ordered, f)
+	}
 	for _, f := range fa {
+		place(f)
+	}
+	for _, f := range ordered {
 		b = append(b, '\n')
 		b = pp.Append(b, s, f.LoadForm())
 	}
